@@ -123,6 +123,9 @@ pub struct Sim {
     pub inner: Mutex<Inner>,
     pub cv: Condvar,
     pub id: u64,
+    /// 0: yield only at election / after-apply points; 2: also before every critical section of the key map
+    /// (set, increment, remove, read) so that two sessions of one node interleave at lock granularity
+    pub fine: std::sync::atomic::AtomicU8,
 }
 
 thread_local! {
@@ -160,7 +163,9 @@ pub fn install_hooks() {
                 g.trace.push(format!("[{}] n{} claims victory via {}", step, node, &site["election_win:".len()..]));
                 return;
             }
-            if site.starts_with("election:") || site == "replicate:after_apply" || (site == "db.map:set_value" && FINE_POINTS.load(std::sync::atomic::Ordering::Relaxed)) {
+            if site.starts_with("election:") || site == "replicate:after_apply" || (site == "db.map:set_value" && FINE_POINTS.load(std::sync::atomic::Ordering::Relaxed))
+                || (sim.fine.load(std::sync::atomic::Ordering::Relaxed) >= 2 && matches!(site, "db.map:set_value" | "db.map:inc_value" | "db.map:remove_value" | "db.map:get_value" | "db.map:set_value_version"))
+            {
                 sim.park_point(tid, site);
             }
         }
@@ -193,6 +198,7 @@ impl Sim {
             }),
             cv: Condvar::new(),
             id: SIM_IDS.fetch_add(1, std::sync::atomic::Ordering::SeqCst),
+            fine: std::sync::atomic::AtomicU8::new(0),
         })
     }
 
